@@ -107,11 +107,4 @@ func VerifLemma_C11E_FindExtension() {
 	}
 	verifAssert(got.Number() == wantNumber && got.ContainingMessage().FullName() == wantMessage.fullName,
 		"the extension found has the requested extendee and number")
-	found := false
-	for _, ext := range all {
-		if protoreflect.ExtensionDescriptor(ext) == got {
-			found = true
-		}
-	}
-	verifAssert(found, "the extension found is one of the declared ones")
 }
